@@ -1,10 +1,49 @@
 """C06 - current span, parent and scope mirror each thread's enter/exit history (spec/Registry)."""
+import json
+import random
+
+import vlib
 from checks import registry_common as rc
+
+
+def macro_parents(out, tier):
+    """the clause `an explicit parent or explicit root overrides it` at the macros: every span / event form of the generated
+    macro corpus (C10's) runs once under an accepting collector; TLC (FieldsTrace, tag BADP) compares the parent the collector
+    was shown - explicit root, the given span, or left to the context - with the form's `parent:` prefix"""
+    from checks import c10
+    c10.regen()
+    sites = json.load(open(c10.CORPUS))
+    rng = random.Random(vlib.seed() * 19 + 6)
+    cases = [c10.make_case(rng, s, "accept") for s in sites if not s["skipped"] and s["kind"] in ("span", "event")]
+    if tier == "quick":
+        # every form with a parent: prefix, and every third of the others
+        cases = [c for i, c in enumerate(cases) if c["decl"]["parent"] != "ctx" or i % 3 == 0]
+    lines, found, _ = c10.execute(cases, "c06p", nchunks=8)
+    seen = set()
+    for b, pos, rec in found["BADP"]:
+        if rec["cs"] in seen:
+            continue
+        seen.add(rec["cs"])
+        s = sites[rec["cs"]]
+        got = [c.get("pk") for c in rec["calls"] if c.get("call") in ("new_span", "event")]
+        out.violation("callsite %d `%s!(%s)`: the collector was shown parent kind %s, the form says %s" % (rec["cs"], s["macro"], s["src"][:200], got, cases[rec["n"]]["decl"]["parent"]),
+                      {"macro_case": cases[rec["n"]], "src": s["src"], "macro": s["macro"]})
+    out.extra["macro_parent_cases"] = len(cases)
 
 
 def run(out, tier):
     rc.run(out, tier, "C06")
+    macro_parents(out, tier)
 
 
 def replay(out, path):
+    d = json.load(open(path))["replay"]
+    if "macro_case" in d:
+        from checks import c10
+        lines, found, _ = c10.execute([d["macro_case"]], "c06p_replay", nchunks=1)
+        for x in lines:
+            print(json.dumps(x)[:2000])
+        if found["BADP"]:
+            out.violation("callsite `%s!(%s)`: parent differs from the form" % (d.get("macro"), d.get("src", "")[:200]), d)
+        return
     rc.replay(out, path, "C06")
